@@ -78,17 +78,43 @@ Qed.
 (* ---------- adjustFitness ---------- *)
 Definition num_parents (o : options) (n : Z) : Z :=
   f_trunc_Z (ffloor (PrimFloat.add (PrimFloat.mul (o_survival o) (f_of_Z n)) 1%float)).
-(* the survival threshold keeps at least the champion of every species *)
-Definition survivors_ok (o : options) : Prop := forall n, 1 <= n -> 1 <= num_parents o n.
+(* the survival threshold keeps at least the champion of every species.  Species sizes below 2^31
+   only: int(math.Floor(x)) is modelled as on amd64 (F64.f_trunc_Z), where SurvivalThresh * float64(n) + 1
+   from 2^63 on converts to math.MinInt64, so no positive threshold works for every n (for
+   SurvivalThresh = 1: n = 2^63 - 1).  A negative numParents makes adjustFitness panic (index out of
+   range), hence this hypothesis is also what keeps adjustFitness from failing. *)
+Definition survivors_ok (o : options) : Prop := forall n, 1 <= n < 2 ^ 31 -> 1 <= num_parents o n.
+
+(* the members of a species of a population with the book-keeping invariant: at least one, no more
+   than there are organisms *)
+Lemma nodup_members_species l s : NoDup (members l) -> In s l -> NoDup (sp_orgs s).
+Proof.
+  induction l as [|c l IH]; intros Hn Hs; [contradiction|].
+  change (members (c :: l)) with (sp_orgs c ++ members l) in Hn.
+  apply nodup_app_inv in Hn. destruct Hn as (N1 & N2 & _). destruct Hs as [<-|Hs]; auto.
+Qed.
+
+Lemma part_species_size p s : Part p -> In s (p_species p) -> 1 <= zlen (sp_orgs s) <= zlen (p_orgs p).
+Proof.
+  intros HP Hs. pose proof (part_nonempty _ HP s Hs) as Ne.
+  assert (L : (length (sp_orgs s) <= length (p_orgs p))%nat).
+  { apply NoDup_incl_length; [eapply nodup_members_species; [apply HP|exact Hs]|]. intros k Hk. eapply part_incl; eauto. }
+  unfold zlen. destruct (sp_orgs s); [congruence|]. cbn [length] in *. lia.
+Qed.
 
 Definition kve (x : organism) : Z * Z * bool := (o_key x, o_species x, o_elim x).
 
 Lemma adjust_fitness_total o h s :
-  sp_orgs s <> [] -> dom_sp h s -> exists h1 s1, adjust_fitness o h s = Ok (h1, s1).
+  sp_orgs s <> [] -> dom_sp h s -> 0 <= num_parents o (zlen (sp_orgs s)) ->
+  exists h1 s1, adjust_fitness o h s = Ok (h1, s1).
 Proof.
-  intros Ne D. unfold adjust_fitness. cbv zeta.
+  intros Ne D Hnp. unfold adjust_fitness. cbv zeta.
   destruct (hgets_total h (sp_orgs s) D) as [orgs G]. rewrite G. cbn [bind].
-  destruct (sort_desc org_lt _) as [|top rest] eqn:S; [|eauto].
+  assert (El : zlen orgs = zlen (sp_orgs s)).
+  { unfold zlen. rewrite <- (hgets_keys _ _ _ G), map_length. reflexivity. }
+  destruct (sort_desc org_lt _) as [|top rest] eqn:S.
+  2:{ fold (num_parents o (zlen orgs)). rewrite El.
+      replace (Z.ltb (num_parents o (zlen (sp_orgs s))) 0) with false by (symmetry; apply Z.ltb_ge; exact Hnp). eauto. }
   exfalso. pose proof (sort_desc_perm org_lt (map (adjust_one o (sp_age s)
      (if Z.eqb (sp_age s - sp_lastimp s + 1 - o_dropoff o) 0 then 1 else sp_age s - sp_lastimp s + 1 - o_dropoff o)
      (zlen orgs)) orgs)) as Pm.
@@ -97,12 +123,15 @@ Proof.
 Qed.
 
 Lemma adjust_fitness_alive o h s h1 s1 :
-  adjust_fitness o h s = Ok (h1, s1) -> survivors_ok o -> NoDup (sp_orgs s) -> fresh_keys h (sp_orgs s) ->
+  adjust_fitness o h s = Ok (h1, s1) -> survivors_ok o -> zlen (sp_orgs s) < 2 ^ 31 ->
+  NoDup (sp_orgs s) -> fresh_keys h (sp_orgs s) ->
   (forall k, ~ In k (sp_orgs s) -> hget h1 k = hget h k) /\ alive h1 s1.
 Proof.
-  unfold adjust_fitness. intros H Sv Hn Fr. cbv zeta in H. rbind H as orgs G.
+  unfold adjust_fitness. intros H Sv Hsz Hn Fr. cbv zeta in H. rbind H as orgs G.
   destruct (sort_desc org_lt _) as [|top rest] eqn:S; [discriminate|].
-  cbn [mark_elim] in H. fold (num_parents o (zlen orgs)) in H.
+  fold (num_parents o (zlen orgs)) in H.
+  destruct (Z.ltb (num_parents o (zlen orgs)) 0); [discriminate|].
+  cbn [mark_elim] in H.
   match type of H with context [hsets h ?m] => set (M := m) in H end.
   assert (Pm : Permutation (map kve (top :: rest)) (map kve orgs)).
   { rewrite <- S. etransitivity; [apply Permutation_map, sort_desc_perm|].
@@ -121,7 +150,10 @@ Proof.
   assert (HnM : NoDup (map o_key M)) by (eapply Permutation_NoDup; [symmetry; exact Pk|exact Hn]).
   assert (Hlen : 1 <= zlen orgs).
   { apply Permutation_length in Pm. rewrite !map_length in Pm. unfold zlen. cbn in Pm. lia. }
-  specialize (Sv _ Hlen).
+  assert (El : zlen orgs = zlen (sp_orgs s)).
+  { unfold zlen. rewrite <- (hgets_keys _ _ _ G), map_length. reflexivity. }
+  assert (Hlt : zlen orgs < 2 ^ 31) by (rewrite El; exact Hsz).
+  specialize (Sv _ (conj Hlen Hlt)).
   assert (Etop : o_elim top = false).
   { assert (Hi : In (kve top) (map kve orgs)) by (eapply Permutation_in; [exact Pm|now left]).
     apply in_map_iff in Hi. destruct Hi as (x & E & Hx). destruct (hgets_in _ _ _ _ G Hx) as [Hg Hk].
@@ -138,32 +170,34 @@ Proof.
 Qed.
 
 Lemma adjust_all_total o l : forall h,
-  (forall s, In s l -> sp_orgs s <> [] /\ dom_sp h s) -> exists h2 l2, adjust_all o h l = Ok (h2, l2).
+  (forall s, In s l -> sp_orgs s <> [] /\ dom_sp h s /\ 0 <= num_parents o (zlen (sp_orgs s))) ->
+  exists h2 l2, adjust_all o h l = Ok (h2, l2).
 Proof.
   induction l as [|s l IH]; intros h H; cbn [adjust_all]; [eauto|].
-  destruct (H s (or_introl eq_refl)) as [Ne D].
-  destruct (adjust_fitness_total o h s Ne D) as (h1 & s1 & E). rewrite E. cbn [bind].
+  destruct (H s (or_introl eq_refl)) as (Ne & D & Hnp).
+  destruct (adjust_fitness_total o h s Ne D Hnp) as (h1 & s1 & E). rewrite E. cbn [bind].
   apply adjust_fitness_ok in E. destruct E as [F _].
   destruct (IH h1) as (h2 & l2 & E2).
-  { intros s' Hs'. destruct (H s' (or_intror Hs')) as [Ne' D']. split; [assumption|].
+  { intros s' Hs'. destruct (H s' (or_intror Hs')) as (Ne' & D' & Hnp'). split; [assumption|]. split; [|exact Hnp'].
     intros k Hk. eapply hdom_frame; eauto. }
   rewrite E2. cbn [bind]. eauto.
 Qed.
 
 Lemma adjust_all_alive o l : forall h h2 l2,
-  adjust_all o h l = Ok (h2, l2) -> survivors_ok o -> NoDup (members l) -> fresh_keys h (members l) ->
+  adjust_all o h l = Ok (h2, l2) -> survivors_ok o -> (forall s, In s l -> zlen (sp_orgs s) < 2 ^ 31) ->
+  NoDup (members l) -> fresh_keys h (members l) ->
   (forall k, ~ In k (members l) -> hget h2 k = hget h k) /\ (forall s2, In s2 l2 -> alive h2 s2).
 Proof.
-  induction l as [|s l IH]; intros h h2 l2 H Sv Hn Fr; cbn [adjust_all] in H.
+  induction l as [|s l IH]; intros h h2 l2 H Sv Hsz Hn Fr; cbn [adjust_all] in H.
   - injection H as <- <-. split; [auto|intros s2 []].
   - rbind H as r Hr. destruct r as [h1 s1]. rbind H as r2 Hr2. destruct r2 as [h2' l2']. injection H as <- <-.
     change (members (s :: l)) with (sp_orgs s ++ members l) in *.
     apply nodup_app_inv in Hn. destruct Hn as (N1 & N2 & N3).
     pose proof (adjust_fitness_ok _ _ _ _ _ Hr) as [_ (_ & _ & _ & Pm)].
-    apply adjust_fitness_alive in Hr; auto.
+    apply (fun H => adjust_fitness_alive _ _ _ _ _ H Sv (Hsz s (or_introl eq_refl)) N1) in Hr.
     2:{ intros k x Hk Hx. eapply Fr; eauto. apply in_or_app. now left. }
     destruct Hr as [O1 A1].
-    apply IH in Hr2; auto.
+    apply (fun H => IH _ _ _ H Sv (fun y Hy => Hsz y (or_intror Hy)) N2) in Hr2.
     2:{ intros k x Hk Hx. rewrite O1 in Hx; [|intros Hi; eapply N3; eauto]. eapply Fr; eauto. apply in_or_app. now right. }
     destruct Hr2 as [O2 A2]. split.
     + intros k N. rewrite O2, O1; auto; intros Hi; apply N; apply in_or_app; auto.
@@ -407,17 +441,19 @@ Proof.
 Qed.
 
 Lemma prepare_forward o p s :
-  Part p -> Fresh p -> survivors_ok o -> survives o p ->
+  Part p -> Fresh p -> zlen (p_orgs p) < 2 ^ 31 -> survivors_ok o -> survives o p ->
   prepare o p s = OutOfTape \/
   exists p1 sorted best s1, prepare o p s = Ok ((p1, sorted, best), s1) /\
                             forall y, In y (p_species p1) -> sp_orgs y <> [].
 Proof.
-  intros HP Fr Sv Hal. pose proof (Part_Wf _ HP) as W. pose proof (part_detached _ HP) as Hd.
+  intros HP Fr Hsz Sv Hal. pose proof (Part_Wf _ HP) as W. pose proof (part_detached _ HP) as Hd.
+  assert (Hss : forall y, In y (p_species p) -> 1 <= zlen (sp_orgs y) < 2 ^ 31).
+  { intros y Hy. pose proof (part_species_size p y HP Hy). lia. }
   (* adjustFitness on every species *)
   destruct (adjust_all_total o (p_species p) (p_heap p)) as (h1 & sps1 & Ea).
-  { intros y Hy. split; [now apply HP|eapply Wf_dom; eauto]. }
+  { intros y Hy. split; [now apply HP|]. split; [eapply Wf_dom; eauto|]. pose proof (Sv _ (Hss y Hy)). lia. }
   pose proof (adjust_all_ok _ _ _ _ _ Ea) as [F1 S1].
-  destruct (adjust_all_alive _ _ _ _ _ Ea Sv (part_once _ HP)) as [_ Al1].
+  destruct (adjust_all_alive _ _ _ _ _ Ea Sv (fun y Hy => proj2 (Hss y Hy)) (part_once _ HP)) as [_ Al1].
   { intros k x Hk Hx. apply members_in in Hk. destruct Hk as (y & Hy & Hk). eapply Fr; eauto. eapply part_incl; eauto. }
   assert (W1 : Wf sps1 h1 (fun k => In k (p_orgs p))).
   { eapply Wf_ext; [eapply Wf_rel; [exact W|now apply sp_rel_forall2]|now apply hframe_ext]. }
@@ -652,7 +688,7 @@ Proof.
 Qed.
 
 Theorem next_epoch_failures o gen p x s :
-  Part p -> Fresh p -> survivors_ok o -> survives o p -> 0 < o_pop_size o ->
+  Part p -> Fresh p -> zlen (p_orgs p) < 2 ^ 31 -> survivors_ok o -> survives o p -> 0 < o_pop_size o ->
   PrimFloat.eqb (o_compat_thresh o) 0 = false ->
   (forall p1 sorted best s1, prepare o p s = Ok ((p1, sorted, best), s1) ->
                              sum_exp (p_species p1) = o_pop_size o) ->
@@ -664,8 +700,8 @@ Theorem next_epoch_failures o gen p x s :
     failure (one_baby o gen (all_sp p1) sorted sp count rs st') <> None /\
     failure (next_epoch o gen p x s) = failure (one_baby o gen (all_sp p1) sorted sp count rs st').
 Proof.
-  intros HP Fr Sv Hal Hpos Hc Hq.
-  destruct (prepare_forward o p s HP Fr Sv Hal) as [Et|(p1 & sorted & best & s1 & Ep & Ne1)].
+  intros HP Fr Hsz Sv Hal Hpos Hc Hq.
+  destruct (prepare_forward o p s HP Fr Hsz Sv Hal) as [Et|(p1 & sorted & best & s1 & Ep & Ne1)].
   { right. left. unfold next_epoch. now apply bindM_tape_eq. }
   specialize (Hq _ _ _ _ Ep).
   pose proof (prepare_ok _ _ _ _ _ _ _ Ep (Part_Wf _ HP) (part_detached _ HP) (part_orgs_nodup _ HP))
@@ -736,7 +772,7 @@ Proof. destruct r; try discriminate. reflexivity. Qed.
 (* if no call of the per-baby body fails (other than by running out of tape) in any state the
    breeding loop can reach, the whole epoch succeeds or runs out of tape *)
 Theorem next_epoch_no_error o gen p x s :
-  Part p -> Fresh p -> survivors_ok o -> survives o p -> 0 < o_pop_size o ->
+  Part p -> Fresh p -> zlen (p_orgs p) < 2 ^ 31 -> survivors_ok o -> survives o p -> 0 < o_pop_size o ->
   PrimFloat.eqb (o_compat_thresh o) 0 = false ->
   (forall p1 sorted best s1, prepare o p s = Ok ((p1, sorted, best), s1) ->
                              sum_exp (p_species p1) = o_pop_size o) ->
@@ -747,8 +783,8 @@ Theorem next_epoch_no_error o gen p x s :
      failure (one_baby o gen (all_sp p1) sorted sp count rs st') = Some FTape) ->
   (exists r, next_epoch o gen p x s = Ok r) \/ next_epoch o gen p x s = OutOfTape.
 Proof.
-  intros HP Fr Sv Hal Hpos Hc Hq Hop.
-  destruct (next_epoch_failures o gen p x s HP Fr Sv Hal Hpos Hc Hq)
+  intros HP Fr Hsz Sv Hal Hpos Hc Hq Hop.
+  destruct (next_epoch_failures o gen p x s HP Fr Hsz Sv Hal Hpos Hc Hq)
     as [H|[H|(p1 & sorted & best & s1 & sp & c & rs & st' & hi & keyi & Ep & Hsp & Bi & Ri & Hne & Hf)]]; auto.
   destruct (Hop _ _ _ _ _ c _ st' _ _ Ep Hsp Bi Ri) as [E|E]; [contradiction|].
   right. apply failure_tape. now rewrite Hf.
